@@ -89,7 +89,10 @@ def run_case(case: dict) -> CaseResult:
         dev.invalid_password = False
         dev.hello_trailer_msgs = []
         dev.on_frame = None
-        if beh == "badversion":
+        dev.latency = D
+        if beh == "slowhello":
+            dev.latency = 6.0  # answers, but only after 6 s (longer than disconnect() waits for a connect to finish)
+        elif beh == "badversion":
             dev.api_version = (3, 0)
         elif beh == "badpass":
             dev.invalid_password = True
@@ -169,6 +172,17 @@ def run_case(case: dict) -> CaseResult:
                     if not t.done():
                         env.cancel(tag)
                     return "cancelled-it"
+                if w == "disccancel":
+                    # a graceful disconnect() is started while the connect is running, and ITS caller gives up 6.75 s
+                    # into the step (after the disconnect gave up waiting for the connect, and after a slow device answered)
+                    classes.add("disconnect_cancelled_during_connect")
+                    dn = f"dc-inner#{len(env.tasks)}"
+                    d = env.spawn(dn, cli.disconnect())
+                    await asyncio.sleep(max(0.0, 6.75 - interfere["at"] / 64))
+                    if not d.done():
+                        env.cancel(dn)
+                    dev.latency = D
+                    return "disconnect-cancelled"
                 if w in ("force+connect", "disconnect+connect", "cancel+connect"):
                     # abort the running call and start the next attempt the moment disconnect() has returned – before
                     # the aborted call's own task has had a chance to unwind
@@ -194,7 +208,7 @@ def run_case(case: dict) -> CaseResult:
     def apply(order, what: str):
         """Update the model from call outcomes, in completion order."""
         for name, status, val in order:
-            if name.startswith(("i:cancel", "i:probe")) and "+connect" not in name:
+            if name.startswith(("i:cancel", "i:probe", "i:disccancel")) and "+connect" not in name:
                 continue
             if name.startswith("i:") and "+connect" in name:
                 # disconnect() followed at once by a new connect(): the client was free, so the attempt must be accepted;
@@ -437,8 +451,10 @@ def _case(draw, tier):
                 tcp = draw(st.sampled_from(["ok", "ok", "ok", "refuse"]))
                 devb = draw(DEVB)
                 itf = draw(INTERFERE)
+                if tcp == "ok" and draw(st.integers(0, 7)) == 5:
+                    devb, itf = "slowhello", {"what": "disccancel", "at": draw(st.sampled_from([1, 8, 32]))}
                 steps.append({"op": "connect", "tcp": tcp, "dev": devb, "login": draw(st.booleans()), "interfere": itf})
-                s = "CONNECTED" if tcp == "ok" and devb is None and (not itf or itf["what"] == "probe") else "IDLE"
+                s = "CONNECTED" if tcp == "ok" and ((devb is None and (not itf or itf["what"] == "probe")) or devb == "slowhello") else "IDLE"
             else:
                 steps.append({"op": "disconnect", "force": draw(st.booleans())})
         elif s == "STARTED":
@@ -467,7 +483,19 @@ def strategy(tier):
     return _case(tier)
 
 
+def _disccancel_cases():
+    second = [{"op": "connect", "tcp": "ok", "dev": None, "login": True, "interfere": None}, {"op": "disconnect", "force": False}]
+    for noise in (False, True):
+        for at in (1, 8, 32):
+            for login in (False, True):
+                first = {"op": "connect", "tcp": "ok", "dev": "slowhello", "login": login, "interfere": {"what": "disccancel", "at": at}}
+                for what in ("eof", "reset", "garbage", "pingtimeout", "discreq"):
+                    yield {"noise": noise, "keepalive": 2.0, "rot": at, "steps": [first, {"op": "dev", "what": what}] + second}
+                yield {"noise": noise, "keepalive": 2.0, "rot": at, "steps": [first, {"op": "disconnect", "force": True}] + second}
+
+
 def enumerated(tier):
+    yield from _disccancel_cases()
     # disconnect (force / graceful) at every stage, followed by a complete second session
     second = [{"op": "connect", "tcp": "ok", "dev": None, "login": True, "interfere": None}, {"op": "disconnect", "force": False}]
     for noise in (False, True):
